@@ -35,11 +35,12 @@ def subscripts_in_bounds(src, macros, where):
     NRE = ol.macro_int(macros, "NREACTIONS")
     lim = {"k": NRE, "kh": ol.macro_int(macros, "NHEATPROCS"), "kc": ol.macro_int(macros, "NCOOLPROCS"),
            "data": NNZ, "colvals": NNZ, "rowptrs": NEQ + 1}
-    for arr, n in re.findall(r"\b(k|kh|kc|data|colvals|rowptrs)\[(?:jistart \+ )?(\d+)\]", src):
+    src = ol.resolve_aliases(src)        # `data[jistart + 3]`, `y_cur[IDX_H]`, ... read as `data[3]`, `y[IDX_H]`
+    for arr, n in re.findall(r"\b(k|kh|kc|data|colvals|rowptrs)\[(\d+)\]", src):
         if lim[arr] is None or int(n) >= lim[arr]:
             return f"{where}: {arr}[{n}] outside declared size {lim[arr]}"
     nsp = ol.macro_int(macros, "NSPECIES")
-    for arr, name in re.findall(r"\b(y|y_cur|ydot|ab)\[(?:yistart \+ )?(IDX_[^\]]+)\]", src):
+    for arr, name in re.findall(r"\b(y|ydot|ab)\[(IDX_[^\]]+)\]", src):
         if name == "IDX_TGAS":
             v = nsp if macros.get("IDX_TGAS") else None
         else:
